@@ -3,6 +3,7 @@
 -/
 import CorgiProps.C16
 import CorgiSpec.Ops
+import CorgiProofs.SumSpec
 
 namespace Corgi
 variable {S : Type} [Add S] [Mul S] [Neg S] [Sub S] [ScalarOps S]
@@ -34,9 +35,23 @@ theorem C07_maps (a : Tensor S) (s e : S) :
 /-- In a commutative ring, negation as the code computes it (`x * -1`) is `-x`. -/
 theorem C07_neg_ring {R : Type} [Lean.Grind.CommRing R] (x : R) : x * (-1) = -x := by grind
 
+/-- **`sum(k)`** for every well-formed array of any rank and every `1 ≤ k ≤ rank`: the last `k`
+    dimensions collapse into one unit dimension holding the sums of the trailing blocks. -/
+theorem C07_sum (a : Tensor S) (k : Nat) (hwf : a.WF) (hk : 1 ≤ k) (hkr : k ≤ a.dims.length) :
+    sum a k = .ok (specSum a k) := sum_spec a k hwf hk hkr
+
+/-- the specification's shape: leading dimensions, then one unit dimension -/
+theorem C07_sum_dims (a : Tensor S) (k : Nat) (hk : 1 ≤ k) :
+    (specSum a k).dims = a.dims.take (a.dims.length - k) ++ [1] := by
+  have : ¬ k = 0 := by omega
+  simp [specSum, this]
+
 /-- `sum(0)` is the identity, `sum_all` is the total. -/
 theorem C07_sum_zero (a : Tensor S) : sum a 0 = .ok a := rfl
 theorem C07_sumAll (a : Tensor S) : sumAll a = a.vals.foldl (· + ·) zero := rfl
+
+/-! non-vacuity -/
+example : (⟨[2, 3], [1, 2, 3, 4, 5, (6 : Int)]⟩ : Tensor Int).WF := by simp [Tensor.WF, prod]
 
 end Corgi
 
@@ -44,5 +59,7 @@ end Corgi
 #print axioms Corgi.C07_reshape_refuses
 #print axioms Corgi.C07_maps
 #print axioms Corgi.C07_neg_ring
+#print axioms Corgi.C07_sum
+#print axioms Corgi.C07_sum_dims
 #print axioms Corgi.C07_sum_zero
 #print axioms Corgi.C07_sumAll
